@@ -229,7 +229,32 @@ def replay_obligation(ob, meta, base, envs):
         out = meta.get('outputs') or []
         changed = res.get('changed', {})
         conf = any(v for m, v in changed.items() if m not in out)
-    elif k in ('call-correspondence', 'call-missing', 'gil', 'kwlist'):
+    elif k == 'kwlist' and 'every documented keyword (' in ob.text:
+        import re
+        m = re.search(r'documented keyword \(([^)]*)\).*wrapper has '
+                      r'\(([^)]*)\)', ob.text)
+        doc, got = m.group(1).split(), m.group(2).split()
+        missing = [d for d in doc if d not in got]
+        if missing:
+            call2 = json.loads(json.dumps(call))
+            call2['kwargs'] = {k_: v for k_, v in call2['kwargs'].items()
+                               if k_ in doc}
+            call2['kwargs'][missing[0]] = {'kind': 'int', 'value': 0}
+            r2 = env.call(call2)
+            info['call'] = call2
+            info['result'] = {k_: v for k_, v in r2.items() if k_ != 'stderr'}
+            conf = r2.get('exception') == 'TypeError' and 'keyword' in (
+                r2.get('message') or '')
+        else:
+            info['note'] = 'documented keywords are all accepted but in a ' \
+                'different order: no run-time oracle'
+    elif k == 'frame' and 'when ipiv is not provided' in ob.text:
+        r2 = env.call(call, forward=True)
+        info['result'] = {k_: v for k_, v in r2.items() if k_ != 'stderr'}
+        conf = r2.get('exception') is None and bool(
+            (r2.get('changed') or {}).get('A'))
+    elif k in ('call-correspondence', 'call-missing', 'gil', 'kwlist',
+               'info-mapping'):
         conf = False
         info['note'] = 'no run-time oracle for this obligation kind'
     return conf, info
